@@ -511,10 +511,12 @@ class IdentityMatrix(PositiveDefiniteMatrix, ImplicitArrayMatrix):
         return ScaledIdentityMatrix(scalar, self.shape[0])
 
     def _left_matrix_multiply(self, other: NDArray) -> NDArray:
-        return other
+        # Return a new array (as all other matrix classes do) rather than the operand
+        # itself, so that results never alias, for example, state variable arrays
+        return other.copy()
 
     def _right_matrix_multiply(self, other: NDArray) -> NDArray:
-        return other
+        return other.copy()
 
     @property
     def eigval(self) -> NDArray:
